@@ -237,6 +237,9 @@ def call_class(I, c, args, kwargs, fr, node):
                     return v
                 return I.to_str_call(v, fr)
         raise Unsupported('%s(...) conversion' % n)
+    if n == 'float' and len(args) == 1 and isinstance(args[0], (VInt, VReal)):
+        v = args[0]
+        return v if isinstance(v, VReal) else VReal(z3.ToReal(v.t))
     if n == 'int':
         v = I.unopt(args[0], 'int argument') if isinstance(args[0], VOpt) else args[0]
         args = [v] + list(args[1:])
